@@ -623,7 +623,7 @@ def scope_dtor_chain_rules(ctx):
     f = ctx.fn("R-ORDER", D, inst)
     if f is None: return
     FLD = "may::scoped::Scope.dtors"
-    takes = set(); writes = set(); runs = set()
+    takes = set(); writes = set(); runs = set(); caught_runs = set()
     for pt in f.points():
         n = f.node(pt)
         if f.is_term(pt):
@@ -632,9 +632,16 @@ def scope_dtor_chain_rules(ctx):
             a0 = trace_operand(f, n["args"][0])
             if re.search(r"option::Option::take$|mem::(take|replace)$|RefCell::(take|replace)$", nm) and FLD in _cell_fields(f, a0): takes.add(pt)
             if re.search(r"FnOnce>::call_once$|FnOnce::call_once$|FnBox::call_box$", nm) and "may::scoped::DtorChain.dtor" in all_fields(simplify(a0)): runs.add(pt)
+            if nm == "std::panic::catch_unwind":
+                x = simplify(a0)
+                while x[0] == "agg" and x[3]: x = simplify(x[3][0])          # AssertUnwindSafe(dtor)
+                if "may::scoped::DtorChain.dtor" in all_fields(x): caught_runs.add(pt)
         elif n.get("s") == "=" and n["l"]["p"] and not f.is_cleanup(pt.bb):
             if FLD in _cell_fields(f, trace_place(f, n["l"])) and _mentions_field(f, trace_rvalue(f, n["rv"], 0, pt), "may::scoped::DtorChain.next"):
                 writes.add(pt)
+    if takes and caught_runs and not runs:
+        # (F37) every dtor runs under catch_unwind inside the loop: a child's panic cannot leave drop_all, the loop itself goes on to the remaining joins
+        ctx.ob("R-ORDER", D, inst, True, "drop_all runs every dtor under catch_unwind: a re-raised child panic is collected, the loop goes on with the remaining joins", f.where(sorted(caught_runs)[0])); return
     if not takes or not runs:
         ctx.missing("R-ORDER", D, inst, "take of Scope.dtors (%d) / dtor invocation (%d)" % (len(takes), len(runs))); return
     r = ctx.an.reach(f, [q for s in takes for q in ctx.an.after(f, s)], blocked=writes)
@@ -2680,3 +2687,89 @@ def thread_park_in_loop(ctx, rule="R-EXIT"):
                    "wake-up makes it run ahead of the event" % k, g.where(pt))
     if n < 3:
         ctx.missing(rule, "may", "thread-park/in-a-loop-on-a-condition", "expected >= 3 thread::park() sites (timer thread, spsc thread receiver, thread io), found %d" % n)
+
+
+# ------------------------------------------------------------------------------------------------
+# F36/F37: a destructor that blocks is never the landing pad of user code
+
+def no_blocking_landing_pad(ctx, only=None, rule="R-EXIT"):
+    """In may's own functions, a call of a user-supplied closure (an unresolved Fn*/FnOnce call on a type parameter) must not have, on its
+    unwind path, the drop of a value whose Drop can park (Scope, Cqueue): the owner would block in the middle of its own unwinding. std's
+    panic count is thread local - while the coroutine is parked there the worker thread's count stays raised, `thread::panicking()` is true for
+    every other coroutine that worker runs (check_cancel then swallows their Cancel panic: the cancelled select arms spin for ever, F36) and,
+    resumed on another thread, the owner sees `panicking() == false` and re-throws a child's panic inside the destructor (abort, F37).
+    The repaired shape runs the closure under catch_unwind, runs the blocking destructor in normal context and then resumes the unwinding."""
+    an = ctx.an
+    PARK = Call(r"may::sync::blocking::(SyncBlocker|Blocker|FastBlocker)::park|may::park::Park::park_timeout|may::yield_now::yield_now")
+    blocking_drop = {}
+    for k, g in ctx.prog.fns.items():
+        m = re.fullmatch(r"<(may::[\w:]+) as std::ops::Drop>::drop", k)
+        if m and an.may(g, PARK): blocking_drop[m.group(1)] = g
+    n = 0; seen_types = set()
+    for k, g in sorted(ctx.prog.fns.items()):
+        if not k.startswith(("may::", "<may::")): continue
+        if only and not re.search(only, k): continue
+        for pt in g.points():
+            if not g.is_term(pt) or g.is_cleanup(pt.bb): continue
+            t = g.node(pt)
+            if t["t"] != "call" or not isinstance(t.get("uw"), int): continue
+            p_, r_ = callee(t)
+            if r_ is not None or not p_ or not re.fullmatch(r"std::ops::(FnOnce::call_once|FnMut::call_mut|Fn::call)", p_): continue
+            # cleanup blocks reachable from the unwind target
+            stack = [t["uw"]]; vis = set(); drops = []
+            while stack:
+                b = stack.pop()
+                if b in vis: continue
+                vis.add(b)
+                tm = g.term(b)
+                if tm["t"] == "drop":
+                    a = adt_of_type(tm.get("ty") or "")
+                    if a in blocking_drop: drops.append((b, a))
+                for x in (tm.get("ok"), tm.get("uw")):
+                    if isinstance(x, int): stack.append(x)
+                if tm["t"] == "sw": stack += [b2 for _, b2 in tm["tg"]] + ([tm["else"]] if isinstance(tm.get("else"), int) else [])
+            n += 1
+            if not drops: continue
+            for b, a in drops[:1]:
+                seen_types.add(a)
+                ctx.fns_touched.add(k)
+                ctx.ob(rule, k, "no-blocking-landing-pad:" + a.rsplit("::", 1)[-1], False,
+                       "%s calls the user's closure with a `%s` alive whose destructor blocks (it waits for the scope's coroutines): when the closure unwinds (a panic, or the Cancel of the owner) "
+                       "the owner parks in the middle of its own unwinding, the worker thread's panic count stays raised: cancelled select arms never see their Cancel panic (hang), a "
+                       "migrated owner re-throws a child's panic inside the destructor (abort)" % (k, a), g.where(pt))
+    # positive instances: the scope functions themselves
+    for fid, a in (("may::scoped::scope", "may::scoped::Scope"), ("may::cqueue::scope", "may::cqueue::Cqueue")):
+        if only and not re.search(only, fid): continue
+        g = ctx.fn(rule, fid, "no-blocking-landing-pad:" + a.rsplit("::", 1)[-1])
+        if g is None: continue
+        inst = "no-blocking-landing-pad:" + a.rsplit("::", 1)[-1]
+        if a not in blocking_drop:
+            # the destructor runs boxed closures the analysis cannot resolve (Scope's deferred joins): decide on the shape of the scope function itself
+            bodies = user_body_sites(ctx, g)
+            ok = bool(bodies) and all(c for _, c in bodies)
+            ctx.ob(rule, fid, inst, ok, "%s runs the user's closure under catch_unwind: its unwinding never reaches the destructor of %s" % (fid, a) if ok else
+                   "%s runs the user's closure outside catch_unwind with a `%s` alive: when the closure unwinds, the joins of the scope run as a landing pad and the owner blocks in the "
+                   "middle of its own unwinding (thread-local panic count raised on the worker; a migrated owner re-throws a child's panic inside the destructor)" % (fid, a), g.where())
+            continue
+        if not any(o.item == fid and o.inst == inst and o.status != "discharged" for o in ctx.obs):
+            ctx.ob(rule, fid, inst, True, "%s runs the user's closure where its unwinding cannot reach the blocking destructor of %s" % (fid, a), g.where())
+    return n
+
+
+def user_body_sites(ctx, f):
+    """where scope-like function f runs the user's closure: [(point in f, under_catch_unwind)] - the unresolved FnOnce call itself, or the
+    std::panic::catch_unwind call whose closure performs it"""
+    out = []
+    for pt in f.points():
+        if not f.is_term(pt) or f.is_cleanup(pt.bb): continue
+        t = f.node(pt)
+        if t["t"] != "call": continue
+        p_, r_ = callee(t)
+        if r_ is None and p_ and re.fullmatch(r"std::ops::(FnOnce::call_once|FnMut::call_mut|Fn::call)", p_):
+            out.append((pt, False))
+        elif (callee_name(t) or "") == "std::panic::catch_unwind":
+            for cid in closure_args(f, t):
+                c = ctx.prog.fn(norm(cid))
+                if c is not None and any(c.is_term(q) and c.node(q)["t"] == "call" and callee(c.node(q))[1] is None and re.fullmatch(r"std::ops::(FnOnce::call_once|FnMut::call_mut|Fn::call)", callee(c.node(q))[0] or "") for q in c.points()):
+                    out.append((pt, True))
+    return out
